@@ -17,6 +17,7 @@
  */
 
 #include "context.h"
+#include "verif_hook.h"
 #include "statement.h"
 #include "functor_manager.h"
 #include "plugin_manager.h"
@@ -491,6 +492,7 @@ const char * Context::language()
 
 double Context::random(double max)
 {
+  BLOC_VERIF_POINT(BLOC_VP_RANDOM, nullptr);
   static std::minstd_rand r;
   static bool seeded = false;
   if (!seeded)
